@@ -422,7 +422,9 @@ impl<S: futures::AsyncRead + futures::AsyncWrite + Unpin> ConnectionReader<S> {
             info_hashes.push(info_hash);
         }
 
-        let pending_worker_out_messages = info_hashes_by_worker.len();
+        // A scrape naming no torrent is answered by no swarm worker: it is
+        // completed below with an empty partial response of our own
+        let pending_worker_out_messages = info_hashes_by_worker.len().max(1);
 
         let pending_scrape_response = PendingScrapeResponse {
             pending_worker_out_messages,
@@ -437,6 +439,21 @@ impl<S: futures::AsyncRead + futures::AsyncWrite + Unpin> ConnectionReader<S> {
             .with_context(|| "Reached 256 pending scrape responses")?;
 
         let meta = self.make_connection_meta(Some(PendingScrapeId(pending_scrape_id)));
+
+        if info_hashes_by_worker.is_empty() {
+            let out_message = OutMessage::ScrapeResponse(ScrapeResponse {
+                action: ScrapeAction::Scrape,
+                files: Default::default(),
+            });
+
+            return self
+                .out_message_sender
+                .send((meta.into(), out_message))
+                .await
+                .map_err(|err| {
+                    anyhow::anyhow!("ConnectionReader::handle_scrape_request failed: {:#}", err)
+                });
+        }
 
         for (consumer_index, info_hashes) in info_hashes_by_worker {
             let in_message = InMessage::ScrapeRequest(ScrapeRequest {
